@@ -38,6 +38,13 @@ func runReaderProps(r *Run, prop string) {
 	for i := 0; i < n; i++ {
 		s := genSchema(r.Rng, SchemaGenCfg{MaxDepth: 1 + r.Rng.Intn(4)})
 		d := genDatum(r.Rng, s)
+		table := i >= len(fam) && i%5 == 4
+		if table {
+			// a flat table row: scalar / string / bytes / fixed columns, half of them nullable
+			s = genTableSchema(r.Rng, fmt.Sprintf("Tbl%d", i))
+			d = genDatum(r.Rng, s)
+			r.Count("table-row")
+		}
 		if i < len(fam) {
 			// fixed shapes first: collections of zero-width items with counts above the
 			// bytes that follow, long map keys, values at varint length boundaries
@@ -58,9 +65,16 @@ func runReaderProps(r *Run, prop string) {
 		r.Add(cApp("KSpecEnc", coqSchema(s), coqDatum(d), coqChoice(ch), cBytes(enc)), desc, fmt.Sprintf("enc/%x", enc))
 		r.Count(fmt.Sprintf("enc-len/%d", bucket(len(enc))))
 
+		// table rows: in half of the cases the target is the plain struct (numbers for nullable numbers)
+		compatPlain = table && r.Rng.Intn(2) == 0
 		targets := []*GT{compatTarget(r.Rng, s)}
+		compatPlain = false
 		if prop == "C04" {
 			targets = append(targets, compatTarget(r.Rng, s), emptyTarget())
+			// and a sparse projection: about every second field left out
+			compatDropOneIn = 2
+			targets = append(targets, compatTarget(r.Rng, s))
+			compatDropOneIn = 7
 		}
 		for ti, g := range targets {
 			tdesc := map[string]any{"schema": desc["schema"], "datum": desc["datum"], "choice": desc["choice"], "bytes": desc["bytes"], "target": g.Coq()}
@@ -98,7 +112,7 @@ func runReaderProps(r *Run, prop string) {
 			}
 		}
 		// file level: the same datum repeated as records of a container, any partition, any codec
-		if i%4 == 0 {
+		if i%4 == 0 || table {
 			readerFileCase(r, s, d, ch, targets[0])
 		}
 	}
